@@ -471,8 +471,11 @@ func realRealHandshake(k *mon.Case, cfg sessCfg) (a, b *v2transport.Peer, ca, cb
 	errs := make([]error, 2)
 	var wg sync.WaitGroup
 	wg.Add(2)
-	run := func(i int, p *v2transport.Peer, c *memconn.Conn, init bool, decoys []int) {
+	run := func(i int, p *v2transport.Peer, c, other *memconn.Conn, init bool, decoys []int) {
 		defer wg.Done()
+		// whoever finishes has written all it ever will: from then on a read of the other side that would
+		// block is a stall and must surface as an error instead of hanging
+		defer other.SetNonBlocking(true)
 		defer func() {
 			if rec := recover(); rec != nil {
 				errs[i] = fmt.Errorf("panic: %v", rec)
@@ -484,8 +487,8 @@ func realRealHandshake(k *mon.Case, cfg sessCfg) (a, b *v2transport.Peer, ca, cb
 			c.Close() // unblocks the other side
 		}
 	}
-	go run(0, a, ca, true, cfg.DecoysI)
-	go run(1, b, cb, false, cfg.DecoysR)
+	go run(0, a, ca, cb, true, cfg.DecoysI)
+	go run(1, b, cb, ca, false, cfg.DecoysR)
 	wg.Wait()
 	if errs[0] != nil || errs[1] != nil {
 		// report the side that failed on its own (the other one usually just sees the close)
